@@ -396,12 +396,14 @@ fn open_discover_opts(ceilings: &[String]) -> gix::discover::upwards::Options<'s
     }
 }
 
-fn one_query(ctx: &mut Ctx, r: &mut Rng, sc: &Scenario, cache: &mut HashMap<PathBuf, GitAns>) {
-    // ---- start directory
-    let start = if r.chance(3, 5) && !sc.work_dirs.is_empty() { r.pick(&sc.work_dirs).clone() } else { r.pick(&sc.all_dirs).clone() };
+fn one_query(ctx: &mut Ctx, r: &mut Rng, sc: &Scenario, pool: &[PathBuf], cache: &mut HashMap<PathBuf, GitAns>) {
+    // ---- start directory (from the scenario's pool, so that git's ceiling-free answer is asked once per start)
+    let start = r.pick(pool).clone();
     // unrestricted answer of git (cached per start)
+    if !cache.contains_key(&start) {
+        ctx.count("git_queries");
+    }
     let free = cache.entry(start.clone()).or_insert_with(|| ask_git(&start, &[])).clone();
-    ctx.count("git_queries");
     let disc_dir: Option<PathBuf> = match &free {
         GitAns::Found { toplevel: Some(t), .. } => Some(t.clone()),
         GitAns::Found { git_dir, .. } => Some(git_dir.clone()),
@@ -783,22 +785,25 @@ fn o_eq(a: &Path, b: &Path) -> bool {
 
 pub fn run(ctx: &mut Ctx) {
     ctx.rule(
-        "case = random directory tree (plain/bare/gitfile/modules/linked-worktree/look-alike elements, nested) + 14 queries \
+        "case = random directory tree (plain/bare/gitfile/modules/linked-worktree/look-alike elements, nested) + 24 queries over 8 start directories \
          (start dir anywhere incl. inside git dirs; absolute or cwd-relative spelling; 0..3 ceilings placed relative to the discovery dir). \
          distinct = (layout found, start position, ceiling relation set, spelling, found?)",
     );
     ctx.assume("everything is owned by the current user (ownership/safe.directory outside the statement); ceilings are absolute and symlink free; no core.worktree/GIT_DIR; invalid gitfiles (git dies) are not compared");
     ctx.assume("whole tree on one filesystem (/dev/shm): the not-found answer of both sides comes from the filesystem boundary at the mount point");
-    let n = ctx.n(40, 1200);
-    let queries = 14;
+    let n = ctx.n(30, 900);
+    let queries = 24;
     ctx.cases("tree", n, |ctx, r| {
         let root = ctx.dir("w");
         let root = std::fs::canonicalize(&root).unwrap_or(root);
         let sc = build_scenario(ctx, r, &root);
         ctx.count("scenarios");
         let mut cache = HashMap::new();
+        let pool: Vec<PathBuf> = (0..8)
+            .map(|_| if r.chance(3, 5) && !sc.work_dirs.is_empty() { r.pick(&sc.work_dirs).clone() } else { r.pick(&sc.all_dirs).clone() })
+            .collect();
         for _ in 0..queries {
-            one_query(ctx, r, &sc, &mut cache);
+            one_query(ctx, r, &sc, &pool, &mut cache);
         }
     });
     let _ = std::env::set_current_dir("/");
